@@ -6,6 +6,7 @@ CONSTANTS
   Ahead = 2
   MaxH = 5
   MaxOps = 1
+  MaxFaults = 2
   Ticks = {1}
 INVARIANTS
   TypeOK
